@@ -102,6 +102,14 @@ def cliSummary (loopEvents drainEvents : List Nat) : Nat :=
   let step := fun (acc x : Nat) => if cliSummaryAccumulates then (acc + x) % U256 else x % U256
   drainEvents.foldl step (loopEvents.foldl step 0)
 
+/-- The CLI total as a result that may report overflow: `checked = false` is the code as it stands (`tokens_spent +=`,
+ruint's wrapping `AddAssign`: always a value, `cliSummary`), `checked = true` a `checked_add` accumulation that
+reports an unrepresentable total instead of a value. -/
+def cliSummaryWith (checked : Bool) (loopEvents drainEvents : List Nat) : Option Nat :=
+  if checked then
+    (if (loopEvents ++ drainEvents).sum < U256 then some (loopEvents ++ drainEvents).sum else none)
+  else some (cliSummary loopEvents drainEvents)
+
 /-- A cost sum as the client computes it (`QuoteForAddress::price`, `StoreQuote::price`, `data_cost`, `vault_cost`,
 `register_cost`, `file_cost`): `checked = false` is ruint's `Sum` / `AddAssign` (`wrapping_add` from zero),
 `checked = true` a `checked_add` fold that reports overflow. -/
